@@ -345,6 +345,29 @@ fn query_storage_checks(ev: &mut Ev) {
     let qt = q2.t().to_owned();
     check("transposed view of the transposed copy", g(&|| interp.interp_array(&qt.t()).unwrap()), ev);
     check("dynamic-dimensional owned", Ok(interp.interp_array(&q2.clone().into_dyn()).unwrap().into_dimensionality().unwrap()), ev);
+    // an interpolator assembled with new_unchecked from the same (valid) parts answers identically
+    {
+        use vh::ndarray_interp::interp2d::{Bilinear, Interp2D};
+        let data: Array2<f64> = array![[0.0, 1.0], [2.0, 0.5], [3.0, 4.0], [1.0, 1.0]];
+        let x: Array1<f64> = array![0.0, 1.0, 2.0, 3.0];
+        let u = Interp1D::new_unchecked(x.clone(), data.clone(), Linear::new());
+        let r = u.interp_array(&q2).unwrap();
+        ev.add("query_storage_variants", 1);
+        if !r.iter().zip(base.iter()).all(|(a, b)| a.to_bits() == b.to_bits()) {
+            ev.violation("C13:constructor", "Interp1D::new_unchecked gives different answers than the builder", 9_200_000, J::obj());
+        }
+        let g: Array2<f64> = array![[1.0, 2.0, 2.5], [3.0, 4.0, 3.5], [0.0, -1.0, 7.0]];
+        let b2 = Interp2D::builder(g.clone()).build().unwrap();
+        let ax: Array1<f64> = array![0.0, 1.0, 2.0];
+        let u2 = Interp2D::new_unchecked(ax.clone(), ax.clone(), g.clone(), Bilinear::new());
+        let qx: Array1<f64> = array![0.25, 1.75, 2.0];
+        let qy: Array1<f64> = array![1.5, 0.125, 0.0];
+        let (ra, rb) = (b2.interp_array(&qx, &qy).unwrap(), u2.interp_array(&qx, &qy).unwrap());
+        ev.add("query_storage_variants", 1);
+        if !ra.iter().zip(rb.iter()).all(|(a, b)| a.to_bits() == b.to_bits()) {
+            ev.violation("C13:constructor", "Interp2D::new_unchecked gives different answers than the builder", 9_200_001, J::obj());
+        }
+    }
     // rank-1 static (fast path) with every storage kind
     let q1: Array1<f64> = array![0.5, 2.5, 3.0, 0.0];
     let b1 = interp.interp_array(&q1).unwrap();
